@@ -20,9 +20,19 @@ func VerifK33ChangeStore() {
 	// ground truth: rows[i] exists iff sequence i is an operation change
 	var rows [maxSeq + 1]*database.ChangeInfo
 	head := zzvsym.IntRange("head", 0, 4)
-	for i := 1; i <= maxSeq; i++ {
-		if zzvsym.Bool(fmt.Sprintf("isop%d", i)) {
-			rows[i] = &database.ChangeInfo{ServerSeq: int64(i), ClientSeq: uint32(i)}
+	if zzvsym.Tier() > 0 {
+		for i := 1; i <= maxSeq; i++ {
+			if zzvsym.Bool(fmt.Sprintf("isop%d", i)) {
+				rows[i] = &database.ChangeInfo{ServerSeq: int64(i), ClientSeq: uint32(i)}
+			}
+		}
+	} else {
+		// quick: no hole, one hole at any sequence, or every second one
+		hole := zzvsym.IntRange("hole", 0, maxSeq+1)
+		for i := 1; i <= maxSeq; i++ {
+			if i != hole && (hole <= maxSeq || i%2 == 0) {
+				rows[i] = &database.ChangeInfo{ServerSeq: int64(i), ClientSeq: uint32(i)}
+			}
 		}
 	}
 	s := NewChangeStore()
@@ -39,7 +49,7 @@ func VerifK33ChangeStore() {
 		}
 		return out, nil
 	}
-	ncalls := 2 + zzvsym.Tier()
+	ncalls := 3
 	for c := 0; c < ncalls; c++ {
 		kind := zzvsym.IntRange(fmt.Sprintf("call%d", c), 0, 1)
 		if kind == 1 && head < maxSeq {
